@@ -33,7 +33,7 @@ impl Monitor for Mon {
     fn on_step(&mut self, w: &World, st: &Step, rep: Option<(&mut Report, &[Event])>) {
         let awaiting_before = std::mem::replace(&mut self.awaiting_before, w.awaiting());
         let Some((rep, hist)) = rep else { return };
-        let replay = || json!({"kind": "history", "config": w.cfg.show(), "events": explore::show_history(hist), "observed": super::world::show_events(&st.obs.events)});
+        let replay = || explore::history_replay(w, hist, st.obs);
         if let CallRes::Panic(p) = &st.obs.res {
             rep.violate(format!("client-panics/{}", crate::util::panic_site(p)), p.clone(), replay());
             return;
